@@ -714,7 +714,7 @@ func (sd *SpecAnalyser) compareSchema(location DifferenceLocation, schema1, sche
 
 	if isArray(schema1) {
 		if isArray(schema2) {
-			sd.compareSchema(location, schema1.Items.Schema, schema2.Items.Schema)
+			sd.compareItems(location, schema1.Items, schema2.Items)
 		} else {
 			sd.addDiffs(location, addTypeDiff([]TypeDiff{}, TypeDiff{Change: ChangedType, FromType: getSchemaTypeStr(schema1), ToType: getSchemaTypeStr(schema2)}))
 		}
@@ -723,6 +723,23 @@ func (sd *SpecAnalyser) compareSchema(location DifferenceLocation, schema1, sche
 	diffs := CompareProperties(location, schema1, schema2, sd.getRefSchemaFromSpec1, sd.getRefSchemaFromSpec2, sd.compareSchema)
 	for _, diff := range diffs {
 		sd.Diffs = sd.Diffs.addDiff(diff)
+	}
+}
+
+// compareItems compares the items of two arrays: one schema for all items, or tuple-typed items
+// (an array of schemas), which are compared position by position
+func (sd *SpecAnalyser) compareItems(location DifferenceLocation, items1, items2 *spec.SchemaOrArray) {
+	if items1 == nil || items2 == nil {
+		return
+	}
+	if items1.Schema != nil && items2.Schema != nil {
+		sd.compareSchema(location, items1.Schema, items2.Schema)
+		return
+	}
+	for i := range items1.Schemas {
+		if i < len(items2.Schemas) {
+			sd.compareSchema(location, &items1.Schemas[i], &items2.Schemas[i])
+		}
 	}
 }
 
